@@ -347,7 +347,7 @@ class Check:
             job = self.job_for_replay(self.replay_only)
             rc, out, _ = run(self.replay_cmd(job, self.replay_only) + ["--verbose"], env=job.get("env"))
             print(out)
-            return 1 if rc in (1, CRASH_RC) else 0 if rc == 0 else 2
+            return 1 if (rc in (1, CRASH_RC) or (rc < 0 and rc != -9)) else 0 if rc == 0 else 2
         try:
             nrep = self.replay_tier(fk)
             self.gen_tier(sorted(fk))
